@@ -2,4 +2,8 @@
 
 package c20
 
+import "unsafe"
+
 func witnessRead(b []byte) {}
+
+func witnessMem(p unsafe.Pointer, n int) {}
